@@ -50,7 +50,7 @@ def default_atom_line(data: IOData, iatom: int):
 @document_write_input(
     "GAUSSIAN",
     ["atnums", "atcoords"],
-    ["title", "run_type", "lot", "obasis_name", "spinmult", "charge"],
+    ["title", "run_type", "lot", "obasis_name", "spinpol", "charge"],
 )
 def write_input(
     fh: TextIO,
